@@ -72,7 +72,11 @@ func (s *swamp) PatchExpired(howMany int32, ops []msgpackpatch.Op, condition *ms
 	results := make([]PatchExpiredEntry, 0, len(selected))
 
 	for _, treasureObj := range selected {
+		// claimMu: never patch a record that a Shift caller has copied out and
+		// is about to remove (see the field comment).
+		s.claimMu.Lock()
 		entry := s.applyPatchExpiredOne(treasureObj, ops, condition, meta)
+		s.claimMu.Unlock()
 		results = append(results, entry)
 	}
 
